@@ -1,8 +1,12 @@
 """C18 — reserved CFDP messages (proxy, directory, originating ID) round-trip via TLVs.
 Family 11 of run_case (coq/theories/Run/DispMsg.v)."""
 import itertools
+from pathlib import Path
 from harness.core import classify_exception, canon_code, run_impl
-from spacepackets.util import UnsignedByteField
+from harness import liveprobe
+from spacepackets.util import UnsignedByteField, ByteFieldU8, ByteFieldU16, ByteFieldU32, ByteFieldU64
+from spacepackets.cfdp.pdu.finished import FinishedParams
+from spacepackets.cfdp.tlv import CfdpTlv, TlvType
 from spacepackets.cfdp.lv import CfdpLv
 from spacepackets.cfdp.defs import ConditionCode, DeliveryCode, FileStatus, TransmissionMode, TransactionId
 from spacepackets.cfdp.tlv import (
@@ -87,9 +91,10 @@ def _ubf(u):
     return [int(u.value), int(u.byte_len)]
 
 
-def _pipe(data, getter, fmt):
-    t = MessageToUserTlv.unpack(bytes(data))
+def _pipe1(buf, after, getter, fmt):
+    t = MessageToUserTlv.unpack(buf)
     r = t.to_reserved_msg_tlv()
+    after(buf)
     if r is None:
         return [[0]]
     x = getter(r)
@@ -98,7 +103,249 @@ def _pipe(data, getter, fmt):
     return [[2]] + fmt(x)
 
 
+def _scribble(buf):
+    for i in range(len(buf)):
+        buf[i] ^= 0xFF
+
+
+def _pipe(data, getter, fmt):
+    """decoded from bytes, and from a bytearray that is overwritten before the parameters are read"""
+    def run(mk, after):
+        try:
+            return _pipe1(mk(data), after, getter, fmt), None
+        except Exception as e:
+            return None, e
+    r1, e1 = run(bytes, lambda b: None)
+    r2, e2 = run(bytearray, _scribble)
+    if (e1 is None) != (e2 is None) or (e1 is not None and classify_exception(e1) != classify_exception(e2)):
+        raise HarnessInvariant("bytes input gives %r, the same octets as bytearray give %r" % (e1 or "an object", e2 or "an object"))
+    if e1 is not None:
+        raise e1
+    if r1 != r2:
+        raise HarnessInvariant("decoding a bytearray that is overwritten afterwards gives %s, decoding bytes gives %s" % (r2[:4], r1[:4]))
+    return r1
+
+
+# ------------------------------------------------------------------ live-object histories (ops 1160, 1161)
+class HarnessInvariant(Exception):
+    """something the adapter itself watches (caller-side parameter objects, input buffers, results handed out
+    earlier) changed; marshalled as error class 99 and named by the oracle"""
+
+
+class _NotApplicable(Exception):
+    pass
+
+
+M_PACK, M_CLASSIFY, M_PARSER, M_TOGENERIC, M_ISRES, M_TORES, M_SETTLV, M_SUBTYPE, M_SETTYPE, M_SETVALUE, M_SETPLEN = range(11)
+M_APPLIES = {True: {M_PACK, M_CLASSIFY, M_PARSER, M_TOGENERIC, M_SETTLV, M_SUBTYPE, M_SETTYPE, M_SETVALUE, M_SETPLEN},
+             False: {M_PACK, M_ISRES, M_TORES, M_SETTLV, M_SUBTYPE, M_SETTYPE, M_SETVALUE, M_SETPLEN}}
+MKINDS = list(range(14))
+PARSERS = ["get_originating_transaction_id", "get_proxy_put_request_params", "get_proxy_put_response_params",
+           "get_proxy_closure_requested", "get_proxy_transmission_mode", "get_dir_listing_request_params",
+           "get_dir_listing_response_params", "get_dir_listing_options"]
+
+
+def _fl(b):
+    return [len(b)] + list(b)
+
+
+def _flat(k, x):
+    """a parser's answer as one integer list (mirror of Model/MsgHist.parser_out)"""
+    if x is None:
+        return [1]
+    if k == 0:
+        return [2] + _ubf(x.source_id) + _ubf(x.seq_num)
+    if k == 1:
+        return [2] + _ubf(x.dest_entity_id) + _fl(x.source_file_name.value) + _fl(x.dest_file_name.value)
+    if k == 2:
+        return [2, int(x.condition_code), int(x.delivery_code), int(x.file_status)]
+    if k in (3, 4):
+        return [2, int(x)]
+    if k == 5:
+        return [2] + _fl(x.dir_path.value) + _fl(x.dir_file_name.value)
+    if k == 6:
+        return [2, int(x[0])] + _fl(x[1].dir_path.value) + _fl(x[1].dir_file_name.value)
+    return [2, int(x.recursive), int(x.all)]
+
+
+def _ubf_new(v, w, alt):
+    if alt and w in (1, 2, 4, 8):
+        return {1: ByteFieldU8, 2: ByteFieldU16, 4: ByteFieldU32, 8: ByteFieldU64}[w](v)
+    return UnsignedByteField(v, w)
+
+
+def _utf8(b):
+    try:
+        s = bytes(b).decode()
+    except UnicodeDecodeError:
+        return None
+    return s
+
+
+def _lv_new(b, fl):
+    """CfdpLv over bytes (flavour 0), a bytearray (1), or through from_str / from_path where the octets are text (2)"""
+    if fl == 1:
+        return CfdpLv(bytearray(b))
+    if fl == 2:
+        s = _utf8(b)
+        if s is not None and len(b) <= 255:
+            return CfdpLv.from_path(Path(s)) if s and 0 not in b and str(Path(s)) == s else CfdpLv.from_str(s)
+    return CfdpLv(bytes(b))
+
+
+def _dir_params(p, n, fl):
+    sp, sn = _utf8(p), _utf8(n)
+    if fl == 2 and sp is not None and sn is not None:
+        if sp and sn and 0 not in p and 0 not in n and str(Path(sp)) == sp and str(Path(sn)) == sn:
+            return DirectoryParams.from_paths(Path(sp), Path(sn))
+        return DirectoryParams.from_strs(sp, sn)
+    return DirectoryParams(_lv_new(p, fl), _lv_new(n, fl))
+
+
+def _build(kind, fl, a, ctx):
+    """message object built by constructor path `kind` with argument flavour fl; ctx["params"] = the caller's
+    parameter object (compared before / after)"""
+    def keep(p):
+        ctx["params"] = p; ctx["params0"] = liveprobe.snap(p)
+        return p
+    if kind == 0:
+        return ProxyPutRequest(keep(ProxyPutRequestParams(_ubf_new(a[0][0], a[0][1], fl), _lv_new(a[1], fl), _lv_new(a[2], fl))))
+    if kind == 1:
+        return ProxyCancelRequest()
+    if kind == 2:
+        return ProxyClosureRequest(_b(a[0][0]))
+    if kind == 3:
+        return ProxyTransmissionMode(_enum(TransmissionMode, a[0][0]))
+    if kind == 4:
+        return OriginatingTransactionId(keep(TransactionId(_ubf_new(a[0][0], a[0][1], fl), _ubf_new(a[0][2], a[0][3], fl))))
+    if kind == 5:
+        return DirectoryListingRequest(keep(_dir_params(a[0], a[1], fl)))
+    if kind == 6:
+        return DirectoryListingResponse(_b(a[0][0]), keep(_dir_params(a[1], a[2], fl)))
+    if kind == 7:
+        return DirectoryListingParameters(keep(DirListingOptions(_b(a[0][0]), _b(a[0][1]))))
+    if kind == 8:
+        cc, dc, fs = _enum(ConditionCode, a[0][0]), _enum(DeliveryCode, a[0][1]), _enum(FileStatus, a[0][2])
+        if fl:
+            return ProxyPutResponse(keep(ProxyPutResponseParams.from_finished_params(keep(FinishedParams(cc, dc, fs)))))
+        return ProxyPutResponse(keep(ProxyPutResponseParams(cc, dc, fs)))
+    if kind == 9:
+        return ReservedCfdpMessage(a[0][0], bytearray(a[1]) if fl else bytes(a[1]))
+    if kind == 10:
+        return MessageToUserTlv(bytearray(a[0]) if fl else bytes(a[0]))
+    if kind in (11, 13):
+        if fl:
+            buf = bytearray(a[0]); t = MessageToUserTlv.unpack(buf)
+        else:
+            t = MessageToUserTlv.unpack(bytes(a[0]))
+        if kind == 13:
+            r = t.to_reserved_msg_tlv()
+            if r is None:
+                raise _NotApplicable()
+            t = r
+        if fl:
+            for i in range(len(buf)):
+                buf[i] ^= 0xFF
+        return t
+    if kind == 12:
+        g = CfdpTlv(_enum(TlvType, a[0][0]), bytes(a[1]))
+        return MessageToUserTlv.from_tlv(g)
+    raise _NotApplicable()
+
+
+def _mview(o):
+    return [[int(o.tlv_type), int(o.tlv.tlv_type)], list(o.value), [o.packet_len]]
+
+
+def _mstep(o, reserved, op):
+    c = op[0]
+    if c not in M_APPLIES[reserved]:
+        raise _NotApplicable()
+    if c == M_PACK:
+        return list(o.pack())
+    if c == M_CLASSIFY:
+        mt = o.get_reserved_cfdp_message_type()
+        p, d, g = o.is_cfdp_proxy_operation(), o.is_directory_operation(), o.is_originating_transaction_id()
+        pt, dt = o.get_cfdp_proxy_message_type(), o.get_directory_operation_type()
+        return [mt, int(p), int(d), int(g), -1 if pt is None else int(pt), -1 if dt is None else int(dt)]
+    if c == M_PARSER:
+        if not 0 <= op[1] < 8:
+            raise _NotApplicable()
+        return _flat(op[1], getattr(o, PARSERS[op[1]])())
+    if c == M_TOGENERIC:
+        return list(o.to_generic_msg_to_user_tlv().pack())
+    if c == M_ISRES:
+        return [int(o.is_reserved_cfdp_message())]
+    if c == M_TORES:
+        r = o.to_reserved_msg_tlv()
+        return [0] if r is None else [1, int(r.tlv_type)] + list(r.value)
+    if c == M_SETTLV:
+        o.tlv = CfdpTlv(_enum(TlvType, op[1]), bytes(op[2:])); return []
+    if c == M_SUBTYPE:
+        o.tlv.tlv_type = _enum(TlvType, op[1]); return []
+    if c == M_SETTYPE:
+        o.tlv_type = _enum(TlvType, op[1]); return []
+    if c == M_SETVALUE:
+        o.value = bytes(op[1:]); return []
+    if c == M_SETPLEN:
+        o.packet_len = op[1]; return []
+    raise _NotApplicable()
+
+
+def _mstatus(f):
+    try:
+        return [0] + list(f())
+    except _NotApplicable:
+        return [1, 99]
+    except HarnessInvariant:
+        raise
+    except Exception as e:
+        return [1, canon_code(classify_exception(e))]
+
+
+def _check_params(ctx):
+    if "params" in ctx and liveprobe.snap(ctx["params"]) != ctx["params0"]:
+        raise HarnessInvariant("the caller's parameter object (%s) was modified" % type(ctx["params"]).__name__)
+
+
+def _msg_history(a):
+    kind, fl = a[0]
+    ctx = {}
+    o = _build(kind, fl, a[1:4], ctx)
+    _check_params(ctx)
+    reserved = kind <= 9 or kind == 13
+    out = _mview(o)
+    for op in a[4:]:
+        out.append(_mstatus(lambda: _mstep(o, reserved, op)))
+        out += _mview(o)
+        _check_params(ctx)
+    again = _mview(_build(kind, fl, a[1:4], {}))
+    if again != out[:3]:
+        raise HarnessInvariant("building the same message again after the history gives %s, the first one started as %s: "
+                               "state is shared between objects" % (again, out[:3]))
+    return out
+
+
+def _two_decodes(a):
+    ka, kb = a[2]
+    buf = bytearray(a[0])
+    ra = MessageToUserTlv.unpack(buf).to_reserved_msg_tlv()
+    xa = None if ra is None else getattr(ra, PARSERS[ka])()
+    first = [0] if ra is None else _flat(ka, xa)
+    for i in range(len(buf)):
+        buf[i] ^= 0xFF
+    rb = MessageToUserTlv.unpack(bytes(a[1])).to_reserved_msg_tlv()
+    second = [0] if rb is None else _flat(kb, getattr(rb, PARSERS[kb])())
+    again = [0] if ra is None else _flat(ka, xa)                              # the objects handed out first
+    third = [0] if ra is None else _flat(ka, getattr(ra, PARSERS[ka])())      # the first message asked again
+    return [first, second, again, third]
+
+
 def impl(op, a):
+    if op == 1160:
+        return _msg_history(a)
+    if op == 1161:
+        return _two_decodes(a)
     if op == 1100:
         return _view(ProxyPutRequest(ProxyPutRequestParams(UnsignedByteField(a[0][0], a[0][1]), CfdpLv(bytes(a[1])), CfdpLv(bytes(a[2])))))
     if op == 1101:
@@ -284,6 +531,130 @@ def valid_builds(rng, n):
     return out
 
 
+# ------------------------------------------------------------------ generators of the histories
+TAILS = [[0xc2, 0x80], [0xdf, 0xbf], [0xe2, 0x82, 0xac], [0xef, 0xbf, 0xbf], [0xf0, 0x90, 0x80, 0x80], [0xf4, 0x8f, 0xbf, 0xbf]]
+
+
+def rtext(rng, n):
+    """valid UTF-8 of exactly n octets, ending in a multi-octet character when there is room"""
+    tails = [t for t in TAILS if len(t) <= n]
+    t = rng.choice(tails) if tails and rng.random() < 0.6 else []
+    return [rng.randrange(0x21, 0x7f) for _ in range(n - len(t))] + t
+
+
+def rname(rng, n):
+    k = rng.randrange(6)
+    return [0x80] * n if k == 0 else [0xFF] * n if k == 1 else rbytes(rng, n) if k == 2 else rtext(rng, n)
+
+
+def build_args(rng, kind, tight=False):
+    """arguments (three lists) of constructor path `kind`; tight: names fill the TLV to its limit (+-1)"""
+    if kind == 0:
+        w = rng.choice(WIDTHS)
+        room = 255 - 5 - 3 - w
+        l1 = rng.choice([0, 1, room // 2, room]) if tight else rng.randrange(0, 12)
+        l2 = room - l1 + rng.choice([-1, 0, 0, 1]) if tight else rng.randrange(0, 12)
+        return [[rid(rng, w), w], rname(rng, l1), rname(rng, max(0, l2))]
+    if kind == 1:
+        return [[], [], []]
+    if kind in (2, 3):
+        return [[rng.randrange(2)], [], []]
+    if kind == 4:
+        sw, qw = rng.choice(WIDTHS), rng.choice(WIDTHS)
+        return [[rid(rng, sw), sw, rid(rng, qw), qw], [], []]
+    if kind in (5, 6):
+        room = 255 - 5 - 2 - (1 if kind == 6 else 0)
+        l1 = rng.choice([0, 1, room // 2, room]) if tight else rng.randrange(0, 12)
+        l2 = room - l1 + rng.choice([-1, 0, 0, 1]) if tight else rng.randrange(0, 12)
+        names = [rname(rng, l1), rname(rng, max(0, l2))]
+        return names + [[]] if kind == 5 else [[rng.randrange(2)]] + names
+    if kind == 7:
+        return [[rng.randrange(2), rng.randrange(2)], [], []]
+    if kind == 8:
+        return [[rng.choice(CC), rng.randrange(2), rng.randrange(4)], [], []]
+    if kind == 9:
+        return [[rng.choice(PROXY + DIROP + [10, 12, 255])], rbytes(rng, rng.choice([0, 1, 3, 20, 250])), []]
+    # message-to-user paths: the octets of some built message (mostly), or arbitrary content
+    if rng.random() < 0.8:
+        k = rng.randrange(9)
+        b = build_args(rng, k, tight and rng.random() < 0.5)
+        f = fields(1100 + k, b if k != 5 else b[:2])
+        v = (CFDP + [MSG_TYPE[1100 + k]] + f)[:255] if f is not None else CFDP + [9]
+    else:
+        v = rng.choice([[], CFDP, CFDP[:3] + [0x71, 1], rbytes(rng, 7), CFDP + rbytes(rng, 3)])
+    if kind == 10:
+        return [v, [], []]
+    if kind in (11, 13):
+        return [[2, len(v)] + v + rbytes(rng, rng.choice([0, 0, 3, 600])), [], []]
+    return [[2 if rng.random() < 0.9 else rng.choice([0, 1, 4, 5, 6])], v, []]
+
+
+def mhist_op(rng, reserved, c):
+    if c == M_PARSER:
+        return [c, rng.randrange(8)]
+    if c == M_SETTLV:
+        ty = 2 if rng.random() < 0.8 else rng.choice([0, 1, 4, 5, 6, 3, 255, 256])
+        if rng.random() < 0.7:
+            k = rng.randrange(9)
+            b = build_args(rng, k)
+            f = fields(1100 + k, b if k != 5 else b[:2])
+            return [c, ty] + CFDP + [MSG_TYPE[1100 + k]] + (f or [])
+        return [c, ty] + rng.choice([[], CFDP, rbytes(rng, 6), CFDP + [10], rbytes(rng, 256)])
+    if c in (M_SUBTYPE, M_SETTYPE):
+        return [c, rng.choice([2, 2, 2, 0, 5, 6, 3, 0x80, 255, 256, -1])]
+    if c == M_SETVALUE:
+        return [c] + rbytes(rng, rng.choice([0, 5, 9]))
+    if c == M_SETPLEN:
+        return [c, rng.choice([0, 7, 255, 70000])]
+    return [c]
+
+
+def mhist_case(rng, kind, fl, ops, tight=False):
+    a = build_args(rng, kind, tight)
+    return (1160, [[kind, fl]] + a + ops)
+
+
+def mhist_systematic(rng):
+    out = []
+    for kind in MKINDS:
+        reserved = kind <= 9 or kind == 13
+        for fl in (0, 1, 2):
+            for c in sorted(M_APPLIES[reserved]):
+                for _ in range(2):
+                    o, o2 = mhist_op(rng, reserved, c), mhist_op(rng, reserved, c)
+                    look = [M_CLASSIFY] if reserved else [M_TORES]
+                    shapes = [[o, [M_PACK], [M_PACK]], [[M_PACK], o, [M_PACK]], [o, list(o), look, [M_PACK]],
+                              [look, o, look, o2, look, [M_PACK]]]
+                    if reserved:
+                        shapes.append([[M_PARSER, rng.randrange(8)], o, [M_PARSER, rng.randrange(8)], [M_TOGENERIC]])
+                    out.append(mhist_case(rng, kind, fl, rng.choice(shapes), tight=rng.random() < 0.2))
+    return out
+
+
+def mhist_random(rng, kind, fl):
+    reserved = kind <= 9 or kind == 13
+    codes = sorted(M_APPLIES[reserved])
+    weights = [5 if c in (M_PACK, M_PARSER) else 3 if c in (M_CLASSIFY, M_TOGENERIC, M_ISRES, M_TORES) else 1 for c in codes]
+    ops = []
+    for _ in range(rng.randrange(0, 11)):
+        if ops and rng.random() < 0.15:
+            ops.append(list(ops[-1]))
+        else:
+            ops.append(mhist_op(rng, reserved, rng.choices(codes, weights)[0]))
+    return mhist_case(rng, kind, fl, ops + ([[M_PACK], [M_PACK]] if rng.random() < 0.6 else []), tight=rng.random() < 0.15)
+
+
+def built_octets(rng, kind, tight=False):
+    """(octets of a packed reserved message of builder `kind`, index of its parser or None)"""
+    b = build_args(rng, kind, tight)
+    f = fields(1100 + kind, b if kind != 5 else b[:2])
+    if f is None or len(f) > 250:
+        return built_octets(rng, kind, False)
+    k = {0: 1, 2: 3, 3: 4, 4: 0, 5: 5, 6: 6, 7: 7, 8: 2}.get(kind)
+    return reserved_tlv(MSG_TYPE[1100 + kind], f), k
+
+
+
 def all_getters(data):
     return [(g, [data]) for g in [1111] + GETTERS]
 
@@ -385,6 +756,70 @@ def streams(tier, rng):
         cases += all_getters(d)
     yield "garbage", "verdict", cases
 
+    # 6. size sweeps: every name length 0..255 in every LV position of every kind that carries names, with the other
+    #    name empty / short / filling the TLV to its limit (+-1); every ID width; built, then decoded
+    cases = []
+    for l in range(0, 257):
+        for kind in (0, 5, 6):
+            w = rng.choice(WIDTHS)
+            room = 255 - 5 - 2 - (1 if kind == 6 else 0) - ((1 + w) if kind == 0 else 0)
+            for other in {0, rng.choice([1, 2, 3]), max(0, room - l - 1), max(0, room - l), max(0, room - l + 1)}:
+                for first in (True, False):
+                    n1, n2 = (rname(rng, l), rname(rng, other)) if first else (rname(rng, other), rname(rng, l))
+                    a = {0: [[rid(rng, w), w], n1, n2], 5: [n1, n2], 6: [[rng.randrange(2)], n1, n2]}[kind]
+                    cases.append((1100 + kind, a))
+                    f = fields(1100 + kind, a)
+                    if f is not None and len(f) <= 250 and len(n1) <= 255 and len(n2) <= 255:
+                        d = reserved_tlv(MSG_TYPE[1100 + kind], f)
+                        cases.append((BUILD_TO_GET[1100 + kind], [d + rbytes(rng, rng.choice([0, 0, 2, 600]))]))
+    for l in list(range(0, 300)) + [1000, 4096, 65536]:
+        cases.append((1109, [[rng.choice(PROXY + DIROP + [10])], rbytes(rng, l)]))
+        cases.append((1110, [CFDP + rbytes(rng, l)])); cases.append((1110, [rbytes(rng, l)]))
+    yield "size_sweep_names", "exact", cases
+    # 7. coinciding limits: 8-octet IDs of all-ones AND names that fill the TLV exactly AND special octet patterns
+    cases = []
+    for w in WIDTHS:
+        for v in (0, 1, 256 ** w - 1, 256 ** w // 2, int("80" * w, 16)):
+            room = 255 - 5 - 3 - w
+            for l1 in (0, 1, room - 1, room):
+                for extra in (-1, 0, 1):
+                    l2 = room - l1 + extra
+                    if l2 < 0:
+                        continue
+                    a = [[v, w], rname(rng, l1), rname(rng, l2)]
+                    cases.append((1100, a))
+                    cases.append((1160, [[0, rng.randrange(3)]] + a + [[M_PACK], [M_PARSER, 1], [M_TOGENERIC], [M_PACK]]))
+                    if extra <= 0:
+                        cases.append((1113, [reserved_tlv(0, fields(1100, a))]))
+            for w2 in WIDTHS:
+                a = [[v, w, 256 ** w2 - 1, w2]]
+                cases.append((1104, a)); cases.append((1112, [reserved_tlv(10, fields(1104, a))]))
+                cases.append((1160, [[4, rng.randrange(2)]] + a + [[], []] + [[M_PACK], [M_PARSER, 0], [M_PACK]]))
+    yield "coinciding_limits", "exact", cases
+    # 8. live-object histories and two messages decoded in a row
+    cases = mhist_systematic(rng) + mhist_systematic(rng)
+    if big:
+        cases += mhist_systematic(rng) + mhist_systematic(rng)
+    for kind in MKINDS:
+        for fl in (0, 1, 2):
+            for _ in range(200 if big else 50):
+                cases.append(mhist_random(rng, kind, fl))
+    yield "histories", "exact", cases
+    cases = []
+    kinds = [0, 2, 3, 4, 5, 6, 7, 8]
+    for ka in kinds:
+        for kb in kinds + [1]:
+            for _ in range(20 if big else 6):
+                da, pa = built_octets(rng, ka, rng.random() < 0.2)
+                db, pb = built_octets(rng, kb, rng.random() < 0.2)
+                cases.append((1161, [da, db, [pa, pb if pb is not None else rng.randrange(8)]]))
+                if ka == kb:        # same kind and same length, different content; identical content
+                    dc = list(da); dc[-1] ^= 0x01
+                    cases.append((1161, [da, dc, [pa, pa]])); cases.append((1161, [da, list(da), [pa, pa]]))
+        cases.append((1161, [built_octets(rng, ka)[0], [2, 3, 1, 2, 3], [rng.randrange(8), rng.randrange(8)]]))
+        cases.append((1161, [[2, 3, 1, 2, 3], built_octets(rng, ka)[0], [rng.randrange(8), rng.randrange(8)]]))
+    yield "two_decodes_in_a_row", "exact", cases
+
 
 # ------------------------------------------------------------------ oracle
 def oracle_spec(case, ires):
@@ -394,11 +829,146 @@ def oracle_spec(case, ires):
     return []
 
 
+PK = {0: 1112, 1: 1113, 2: 1114, 3: 1115, 4: 1116, 5: 1117, 6: 1118, 7: 1119}
+MNAME = {0: "ProxyPutRequest", 1: "ProxyCancelRequest", 2: "ProxyClosureRequest", 3: "ProxyTransmissionMode",
+         4: "OriginatingTransactionId", 5: "DirectoryListingRequest", 6: "DirectoryListingResponse",
+         7: "DirectoryListingParameters", 8: "ProxyPutResponse", 9: "ReservedCfdpMessage", 10: "MessageToUserTlv",
+         11: "MessageToUserTlv.unpack", 12: "MessageToUserTlv.from_tlv", 13: "MessageToUserTlv.to_reserved_msg_tlv"}
+
+
+def _flat_expected(k, v):
+    """independent reading of reserved-message value v by parser k, flattened like the adapter does; None = no verdict"""
+    e = expected_get(PK[k], v)
+    if e == "none":
+        return [1]
+    if not isinstance(e, list):
+        return e
+    out = [2]
+    for i, x in enumerate(e):
+        out += x if (k in (0, 2, 3, 4, 7) or (k in (1, 6) and i == 0)) else [len(x)] + x
+    return out
+
+
+def _mhist_oracle(a, ires):
+    kind, fl = a[0]
+    name = MNAME[kind]
+    ops = a[4:]
+    reserved = kind <= 9 or kind == 13
+    if ires[0][0] == 1:
+        if ires[0][1] == 99 and not (kind == 13):
+            try:
+                _msg_history(a); why = "not reproducible"
+            except Exception as e:
+                why = str(e)
+            return ("C18/%s.history/caller-object-modified-or-shared-state" % name, why)
+        return None
+    body = ires[1:]
+    if len(body) != 3 + 4 * len(ops):
+        return ("oracle-crash", "history result has %d lists for %d operations" % (len(body), len(ops)))
+    view = body[:3]
+    if kind <= 8:
+        b = a[1:4] if kind != 5 else a[1:3]
+        f = fields(1100 + kind, b)
+        if f is not None and len(CFDP + f) + 1 <= 255 and not (kind == 0 and b[0][1] == 0):
+            if view[1] != CFDP + [MSG_TYPE[1100 + kind]] + f:
+                return ("C18/%s.pack/layout" % name, "argument flavour %d: value %s, the standard says %s" % (fl, view[1][:16], (CFDP + [MSG_TYPE[1100 + kind]] + f)[:16]))
+    last_pack, pos = None, 3
+    for n, op in enumerate(ops):
+        st, nview = body[pos], body[pos + 1:pos + 4]
+        pos += 4
+        c = op[0]
+        where = "step %d (%s) of %s" % (n + 1, op[:8], [x[:6] for x in ops])
+        ok = st[0] == 0
+        if c not in M_APPLIES[reserved] or (c == M_PARSER and not 0 <= op[1] < 8):
+            view = nview; continue
+        if not ok and st[1] == 99:
+            return ("C18/%s.history/caller-object-modified" % name, where)
+        if c in (M_PACK, M_CLASSIFY, M_PARSER, M_TOGENERIC, M_ISRES, M_TORES) or not ok:
+            if nview != view:
+                return ("C18/%s.history/observation-changed-the-object" % name, "%s: the object reads %s instead of %s" % (where, nview, view))
+        ty, v = nview[0][1], nview[1]
+        is_res = len(v) >= 5 and v[:4] == CFDP
+        if c == M_PACK:
+            if not 0 <= ty <= 255:
+                if ok:
+                    return ("C18/%s.history/pack-accepts-type-%d" % (name, ty), where)
+            elif not ok or st[1:] != [ty, len(v)] + v or len(st) - 1 != nview[2][0]:
+                return ("C18/%s.history/pack-is-not-the-current-tlv" % name, "%s -> %s, the object holds type %d value %s (packet_len %s)" % (where, st[:14], ty, v[:12], nview[2]))
+            elif last_pack is not None and last_pack != st[1:]:
+                return ("C18/%s.history/pack-not-repeatable" % name, where)
+            last_pack = st[1:] if ok else None
+            view = nview; continue
+        if c in (M_SETTLV, M_SUBTYPE):
+            last_pack = None
+            if c == M_SETTLV and len(op) - 2 <= 255 and (not ok or nview[0][1] != op[1] or nview[1] != op[2:]):
+                return ("C18/%s.history/assignment-not-visible" % name, "%s: the object reads %s" % (where, nview))
+            if c == M_SUBTYPE and (not ok or nview[0][1] != op[1]):
+                return ("C18/%s.history/assignment-not-visible" % name, "%s: the object reads %s" % (where, nview))
+        if c in (M_SETTYPE, M_SETVALUE, M_SETPLEN) and ok:
+            return ("C18/%s.history/read-only-property-assigned" % name, where)
+        if not ok and c in (M_CLASSIFY, M_PARSER, M_ISRES, M_TORES) and is_res and st[1] not in (1, 2, 3):
+            return ("C18/%s.history/undocumented-exception" % name, "%s -> error class %d" % (where, st[1]))
+        if c == M_ISRES and st != [0, int(is_res)]:
+            return ("C18/MessageToUserTlv.is_reserved_cfdp_message/answer", "%s: content %s -> %s" % (where, v[:8], st))
+        if c == M_TORES:
+            want = [0, 1, 2] + v if is_res else [0, 0]
+            if st != want:
+                return ("C18/MessageToUserTlv.to_reserved_msg_tlv/history", "%s: content %s -> %s" % (where, v[:8], st[:12]))
+        if c == M_CLASSIFY and is_res:
+            mt = v[4]
+            want = [0, mt, int(mt in PROXY), int(mt in DIROP), int(mt == 10), mt if mt in PROXY else -1, mt if mt in DIROP else -1]
+            if st != want:
+                return ("C18/ReservedCfdpMessage/classification", "%s: value %s -> %s" % (where, v[:8], st))
+        if c == M_PARSER and is_res:
+            e = _flat_expected(op[1], v)
+            pname = PARSERS[op[1]]
+            if e == "bad" and ok and st != [0, 1]:
+                return ("C18/ReservedCfdpMessage.%s/malformed-accepted" % pname, "%s: value %s -> %s" % (where, v[:14], st[:10]))
+            if isinstance(e, list) and st != [0] + e:
+                return ("C18/ReservedCfdpMessage.%s/fields" % pname, "%s: value %s -> %s, expected %s" % (where, v[:14], st[:12], e[:12]))
+        if c == M_TOGENERIC:
+            if ty == 2 and (not ok or st[1:] != [2, len(v)] + v):
+                return ("C18/ReservedCfdpMessage.to_generic_msg_to_user_tlv/octets", "%s -> %s" % (where, st[:12]))
+            if ty != 2 and (ok or st[1] != 6):
+                return ("C18/ReservedCfdpMessage.to_generic_msg_to_user_tlv/foreign-type", "%s: wrapped type %d -> %s" % (where, ty, st[:6]))
+        view = nview
+    return None
+
+
+def _two_oracle(a, ires):
+    if ires[0][0] == 1:
+        return None
+    da, db, (ka, kb) = a
+    if ires[3] != ires[1] or ires[4] != ires[1]:
+        return ("C18/ReservedCfdpMessage.%s/earlier-result-changed-by-later-decode" % PARSERS[ka],
+                "first message %s read as %s; after decoding %s the same parameters read %s, asked again %s" % (da[:14], ires[1][:10], db[:14], ires[3][:10], ires[4][:10]))
+    for d, k, got in ((da, ka, ires[1]), (db, kb, ires[2])):
+        if len(d) >= 2 and d[0] == 2 and 2 + d[1] <= len(d):
+            v = d[2:2 + d[1]]
+            if len(v) >= 5 and v[:4] == CFDP:
+                e = _flat_expected(k, v)
+                if isinstance(e, list) and got != e:
+                    return ("C18/ReservedCfdpMessage.%s/fields" % PARSERS[k], "%s -> %s, expected %s" % (d[:14], got[:12], e[:12]))
+            elif got != [0]:
+                return ("C18/MessageToUserTlv.to_reserved_msg_tlv/non-reserved", "%s -> %s" % (d[:12], got[:6]))
+    return None
+
+
 def oracle(case, ires, sres):
     """The statement of C18 evaluated on the implementation."""
     op, a = case
     err = ires[0][0] == 1
     code = ires[0][1] if err else None
+    if op == 1160:
+        return _mhist_oracle(a, ires)
+    if op == 1161:
+        return _two_oracle(a, ires)
+    if err and code == 99 and (op == 1111 or op in GETTERS):
+        try:
+            impl(op, a); why = "not reproducible"
+        except Exception as e:
+            why = str(e)
+        return ("C18/MessageToUserTlv.unpack/input-buffer-aliased-or-type-dependent", why)
     if 1100 <= op <= 1108:
         f = fields(op, a)
         if f is None:
